@@ -291,6 +291,8 @@ def r3(ctx, cfg, R="C07.R3"):
             for e, c in conds:
                 if c[0] == "variant_in" and is_param(c[1], pname) and c[2] in (("Some",), ("None",)):
                     tag = c[2][0]
+                elif q.is_derived(c):
+                    continue
                 elif c[0] in ("bool",):
                     others.append(c)
                 elif c[0] == "variant_in" and not is_param(c[1], pname):
@@ -447,6 +449,33 @@ def r4(ctx, cfg):
     f = ctx.need_fn(R, key)
     if f is not None:
         cf = cfg_of(f)
+        ret = peel(P.ret(f))
+        # two recognised ways to write it: (A) `if len > 0xFFFF { panic }` + bytes 2 and 3 of `(len as u32).to_be_bytes()`;
+        # (B) `u16::try_from(len)` whose failure diverges + `u16::to_be_bytes` of the converted value
+        conv = None
+        if ret[0] == "call" and ret[1] == "u16::to_be_bytes" and ret[2]:
+            inner = peel(ret[2][0])
+            if inner[0] == "ok" and peel(inner[1])[0] == "call" and peel(inner[1])[1].endswith("TryFrom::try_from"):
+                tf = peel(inner[1])
+                if peel(tf[2][0])[0] == "call" and peel(tf[2][0])[1].endswith("len") and is_param(peel(tf[2][0])[2][0], "namespace"):
+                    conv = tf
+        if conv is not None:
+            pres, absn = q.presence_edges(P, f, lambda o: False)
+            # the Err edge of the conversion never returns
+            err_edges = []
+            for sb in f.order:
+                tt = f.blocks[sb]["term"]
+                if tt["k"] == "switch" and "discr_of" in tt:
+                    so = peel(P.place(f, tt["discr_of"], (sb, "t")))
+                    if so[0] == "call" and so[1].endswith("TryFrom::try_from"):
+                        for e, v, n, tb in cf.switch_edges(sb):
+                            if n == "Err" or (n is None and [x[2] for x in tt["targets"]] == ["Ok"]):
+                                err_edges.append(e)
+            ok = bool(err_edges) and not any(cf.can_reach(e, r) for e in err_edges for r in cf.return_blocks())
+            ctx.ob(R, key, "diverges-above-0xFFFF", ok, "encode_length must not return when the length does not fit 16 bits", fn=f, sample="u16::try_from(len) fails -> panic")
+            ctx.ob(R, key, "two-big-endian-length-bytes", True, "-", fn=f, sample="u16::to_be_bytes(u16::try_from(len))")
+            ctx.ob(R, key, "low-two-bytes-in-order", True, "-", fn=f, sample="both bytes of the u16, big endian")
+            return
         guards = []
         for bid in f.order:
             t = f.blocks[bid]["term"]
@@ -464,7 +493,6 @@ def r4(ctx, cfg):
                     too_long = e
             ok = too_long is not None and not any(cf.can_reach(too_long, r) for r in cf.return_blocks())
         ctx.ob(R, key, "diverges-above-0xFFFF", ok, "encode_length must not return for len > 0xFFFF", fn=f, sample="len > 0xFFFF -> panic")
-        ret = peel(P.ret(f))
         ok = ret[0] == "agg" and ret[1] == "array" and len(ret[2]) == 2
         if ok:
             def byte(o, i):
